@@ -751,3 +751,353 @@ def value_of_type(I, ty, env):
                 parts = [value_of_type(I, g, env) for g in gens[-n:]]
                 return {'verify': p_verify, 'peek': p_peek, 'not': p_not, 'map_opt': p_map_opt, 'all_consuming': p_all_consuming, 'complete': p_complete}[comb](*parts)
     return _old_value_of_type(I, ty, env)
+
+
+# ---------------------------------------------------------------------------- more of the nom 7 surface (a refactoring may reach for any of it)
+_VecObj = VecObj
+
+def _len(x):
+    return len(as_slice(x))
+
+def p_flat_map(p, f):
+    def parse(I, inp):
+        r = apply(I, p, inp)
+        if r.variant == 'Err':
+            return r
+        rest, o = r.fields[0].items
+        return apply(I, I.call_value(f, [o]), rest)
+    return PyFn(parse, 'flat_map')
+
+def p_map_parser(p, g):
+    def parse(I, inp):
+        r = apply(I, p, inp)
+        if r.variant == 'Err':
+            return r
+        rest, o = r.fields[0].items
+        r2 = apply(I, g, o)
+        if r2.variant == 'Err':
+            return r2
+        return done(rest, r2.fields[0].items[1])
+    return PyFn(parse, 'map_parser')
+
+def p_consumed(p):
+    def parse(I, inp):
+        inp = as_slice(inp)
+        r = apply(I, p, inp)
+        if r.variant == 'Err':
+            return r
+        rest, o = r.fields[0].items
+        return done(rest, Tup([inp.sub(0, len(inp) - _len(rest)), o]))
+    return PyFn(parse, 'consumed')
+
+def p_into(p):
+    return p          # (the conversions in reach are identities on &[u8] / errors of the same type)
+
+def p_many(p, lo, hi, kind, count_only=False, streaming_err=True):
+    """many0 / many1 / many_m_n / many0_count / many1_count (nom 7: stops at the first recoverable error, a parser
+    that succeeds without consuming is an error, Incomplete and Failure propagate)"""
+    def parse(I, inp):
+        acc = []
+        cur = inp
+        while hi is None or len(acc) < hi:
+            r = apply(I, p, cur)
+            if r.variant == 'Err':
+                if is_err_kind(r, 'Error'):
+                    if len(acc) < lo:
+                        return nerror(inp, kind)
+                    break
+                return r
+            rest, o = r.fields[0].items
+            if _len(rest) == _len(cur):
+                return nerror(cur, kind)
+            acc.append(o); cur = rest
+        return done(cur, len(acc) if count_only else _VecObj(acc))
+    return PyFn(parse, kind)
+
+def p_count(p, n):
+    def parse(I, inp):
+        acc = []; cur = inp
+        for _ in range(n):
+            r = apply(I, p, cur)
+            if r.variant == 'Err':
+                return r
+            cur, o = r.fields[0].items
+            acc.append(o)
+        return done(cur, _VecObj(acc))
+    return PyFn(parse, 'count')
+
+def p_many_till(f, g):
+    def parse(I, inp):
+        acc = []; cur = inp
+        while True:
+            r = apply(I, g, cur)
+            if r.variant == 'Ok':
+                rest, o = r.fields[0].items
+                return done(rest, Tup([_VecObj(acc), o]))
+            if not is_err_kind(r, 'Error'):
+                return r
+            r = apply(I, f, cur)
+            if r.variant == 'Err':
+                return r
+            rest, o = r.fields[0].items
+            if _len(rest) == _len(cur):
+                return nerror(cur, 'ManyTill')
+            acc.append(o); cur = rest
+    return PyFn(parse, 'many_till')
+
+def p_separated_list(sep, f, at_least_one):
+    def parse(I, inp):
+        acc = []; cur = inp
+        r = apply(I, f, cur)
+        if r.variant == 'Err':
+            if is_err_kind(r, 'Error') and not at_least_one:
+                return done(cur, _VecObj(acc))
+            return r
+        cur, o = r.fields[0].items
+        acc.append(o)
+        while True:
+            r = apply(I, sep, cur)
+            if r.variant == 'Err':
+                if is_err_kind(r, 'Error'):
+                    return done(cur, _VecObj(acc))
+                return r
+            rest, _ = r.fields[0].items
+            if _len(rest) == _len(cur):
+                return nerror(cur, 'SeparatedList')
+            r = apply(I, f, rest)
+            if r.variant == 'Err':
+                if is_err_kind(r, 'Error'):
+                    return done(cur, _VecObj(acc))
+                return r
+            cur, o = r.fields[0].items
+            acc.append(o)
+    return PyFn(parse, 'separated_list')
+
+def p_fold_many(p, init, g, lo, kind):
+    def parse(I, inp):
+        acc = I.call_value(init, []) if not isinstance(init, (int, bool)) and not is_sym(init) else init
+        cur = inp; n = 0
+        while True:
+            r = apply(I, p, cur)
+            if r.variant == 'Err':
+                if is_err_kind(r, 'Error'):
+                    if n < lo:
+                        return nerror(inp, kind)
+                    return done(cur, acc)
+                return r
+            rest, o = r.fields[0].items
+            if _len(rest) == _len(cur):
+                return nerror(cur, kind)
+            acc = I.call_value(g, [acc, o]); cur = rest; n += 1
+    return PyFn(parse, kind)
+
+def p_length_value(f, g):
+    def parse(I, inp):
+        r = apply(I, f, inp)
+        if r.variant == 'Err':
+            return r
+        rest, n = r.fields[0].items
+        r2 = p_take(n).f(I, rest)
+        if r2.variant == 'Err':
+            return r2
+        rest2, chunk = r2.fields[0].items
+        r3 = apply(I, g, chunk)
+        if r3.variant == 'Err':
+            if is_err_kind(r3, 'Incomplete'):
+                return nerror(chunk, 'Complete')
+            return r3
+        return done(rest2, r3.fields[0].items[1])
+    return PyFn(parse, 'length_value')
+
+def p_tag_no_case(tagv, streaming):
+    t = as_items(tagv)
+    def low(x):
+        if is_sym(x):
+            return z3.If(z3.And(z3.UGE(x, 65), z3.ULE(x, 90)), x + 32, x)
+        return x + 32 if 65 <= x <= 90 else x
+    def parse(I, inp):
+        inp = as_slice(inp)
+        items = inp.items()
+        n = min(len(items), len(t))
+        if not I.ctx.decide(seq_eq([low(x) for x in items[:n]], [low(x) for x in t[:n]])):
+            return nerror(inp, 'Tag')
+        if len(items) < len(t):
+            return incomplete(len(t) - len(items)) if streaming else nerror(inp, 'Tag')
+        return done(inp.sub(len(t), len(items)), inp.sub(0, len(t)))
+    return PyFn(parse, 'tag_no_case')
+
+def p_take_while_m_n(m, n, pred, streaming):
+    def parse(I, inp):
+        inp = as_slice(inp)
+        items = inp.items()
+        k = 0
+        while k < len(items) and k < n and I.ctx.decide(I.call_value(pred, [items[k]])):
+            k += 1
+        if k == len(items) and k < n:
+            if streaming:
+                return incomplete(max(1, m - k) if k < m else 1)
+            if k < m:
+                return nerror(inp, 'TakeWhileMN')
+        elif k < m:
+            return nerror(inp, 'TakeWhileMN')
+        return done(inp.sub(k, len(items)), inp.sub(0, k))
+    return PyFn(parse, 'take_while_m_n')
+
+def p_take_until1(tagv, streaming):
+    t = as_items(tagv)
+    def parse(I, inp):
+        inp = as_slice(inp)
+        items = inp.items()
+        for i in range(len(items) - len(t) + 1):
+            if I.ctx.decide(seq_eq(items[i:i+len(t)], t)):
+                if i == 0:
+                    return nerror(inp, 'TakeUntil')
+                return done(inp.sub(i, len(items)), inp.sub(0, i))
+        return incomplete(None) if streaming else nerror(inp, 'TakeUntil')
+    return PyFn(parse, 'take_until1')
+
+def p_satisfy(pred, streaming):
+    def parse(I, inp):
+        return _one_char(I, inp, streaming, lambda x: I.call_value(pred, [z3.ZeroExt(24, x) if is_sym(x) else x]), 'Satisfy')
+    return PyFn(parse, 'satisfy')
+
+def _uint_parser(bits, streaming):
+    """nom::character::{streaming,complete}::u8..u64: decimal digits, overflow is an error (ErrorKind::Digit)"""
+    def m(I, c, args, fr):
+        inp = as_slice(args[0])
+        items = inp.items()
+        if not items:
+            return incomplete(1) if streaming else nerror(inp, 'Digit')
+        k = 0
+        while k < len(items) and I.ctx.decide(is_digit(items[k])):
+            k += 1
+        if k == 0:
+            return nerror(inp, 'Digit')
+        if k == len(items) and streaming:
+            return incomplete(1)
+        val = 0
+        W = 72
+        for x in items[:k]:
+            d = (z3.ZeroExt(W - 8, x) - 48) if is_sym(x) else (x - 48)
+            val = val * 10 + d
+            val = simp(val) if is_sym(val) else val
+            over = z3.UGE(val, 1 << bits) if is_sym(val) else val >= (1 << bits)
+            if I.ctx.decide(over):
+                return nerror(inp, 'Digit')
+        out = z3.Extract(bits - 1, 0, val) if is_sym(val) else val
+        return done(inp.sub(k, len(items)), out)
+    return m
+for _b in (8, 16, 32, 64):
+    model('nom::character::streaming::u%d' % _b, 'character::streaming::u%d' % _b)(_uint_parser(_b, True))
+    model('nom::character::complete::u%d' % _b, 'character::complete::u%d' % _b)(_uint_parser(_b, False))
+
+@model('nom::combinator::flat_map', 'combinator::flat_map')
+def m_flat_map(I, c, args, fr): return p_flat_map(args[0], args[1])
+@model('nom::combinator::map_parser', 'combinator::map_parser')
+def m_map_parser(I, c, args, fr): return p_map_parser(args[0], args[1])
+@model('nom::combinator::consumed', 'combinator::consumed')
+def m_consumed(I, c, args, fr): return p_consumed(args[0])
+@model('nom::combinator::into', 'combinator::into')
+def m_into(I, c, args, fr): return p_into(args[0])
+@model('nom::combinator::success', 'combinator::success')
+def m_success(I, c, args, fr):
+    v = args[0]
+    return PyFn(lambda I, inp: done(inp, copy_value(v)), 'success')
+@model('nom::combinator::fail', 'combinator::fail')
+def m_fail(I, c, args, fr): return nerror(args[0], 'Fail')
+@model('nom::combinator::cond', 'combinator::cond')
+def m_cond(I, c, args, fr):
+    b, p = args
+    def parse(I, inp):
+        if not I.ctx.decide(b):
+            return done(inp, none())
+        r = apply(I, p, inp)
+        if r.variant == 'Err':
+            return r
+        rest, o = r.fields[0].items
+        return done(rest, some(o))
+    return PyFn(parse, 'cond')
+@model('nom::multi::many0', 'multi::many0')
+def m_many0(I, c, args, fr): return p_many(args[0], 0, None, 'Many0')
+@model('nom::multi::many1', 'multi::many1')
+def m_many1(I, c, args, fr): return p_many(args[0], 1, None, 'Many1')
+@model('nom::multi::many0_count', 'multi::many0_count')
+def m_many0_count(I, c, args, fr): return p_many(args[0], 0, None, 'Many0Count', count_only=True)
+@model('nom::multi::many1_count', 'multi::many1_count')
+def m_many1_count(I, c, args, fr): return p_many(args[0], 1, None, 'Many1Count', count_only=True)
+@model('nom::multi::many_m_n', 'multi::many_m_n')
+def m_many_m_n(I, c, args, fr): return p_many(args[2], args[0], args[1], 'ManyMN')
+@model('nom::multi::count', 'multi::count')
+def m_ncount(I, c, args, fr): return p_count(args[0], args[1])
+@model('nom::multi::many_till', 'multi::many_till')
+def m_many_till(I, c, args, fr): return p_many_till(args[0], args[1])
+@model('nom::multi::separated_list0', 'multi::separated_list0')
+def m_sep0(I, c, args, fr): return p_separated_list(args[0], args[1], False)
+@model('nom::multi::separated_list1', 'multi::separated_list1')
+def m_sep1(I, c, args, fr): return p_separated_list(args[0], args[1], True)
+@model('nom::multi::fold_many0', 'multi::fold_many0')
+def m_fold0(I, c, args, fr): return p_fold_many(args[0], args[1], args[2], 0, 'Many0')
+@model('nom::multi::fold_many1', 'multi::fold_many1')
+def m_fold1(I, c, args, fr): return p_fold_many(args[0], args[1], args[2], 1, 'Many1')
+@model('nom::multi::length_value', 'multi::length_value')
+def m_length_value(I, c, args, fr): return p_length_value(args[0], args[1])
+@model('nom::multi::length_count', 'multi::length_count')
+def m_length_count(I, c, args, fr):
+    f, g = args
+    def parse(I, inp):
+        r = apply(I, f, inp)
+        if r.variant == 'Err':
+            return r
+        rest, n = r.fields[0].items
+        if is_sym(n):
+            n = I.ctx.concretize(n, 'count')
+        return p_count(g, n).f(I, rest)
+    return PyFn(parse, 'length_count')
+@model('nom::bytes::streaming::tag_no_case', 'streaming::tag_no_case')
+def m_tag_no_case(I, c, args, fr): return p_tag_no_case(args[0], True)
+@model('nom::bytes::complete::tag_no_case', 'complete::tag_no_case')
+def m_ctag_no_case(I, c, args, fr): return p_tag_no_case(args[0], False)
+@model('nom::bytes::streaming::take_while_m_n', 'streaming::take_while_m_n')
+def m_twmn(I, c, args, fr): return p_take_while_m_n(args[0], args[1], args[2], True)
+@model('nom::bytes::complete::take_while_m_n', 'complete::take_while_m_n')
+def m_ctwmn(I, c, args, fr): return p_take_while_m_n(args[0], args[1], args[2], False)
+@model('nom::bytes::streaming::take_until1', 'streaming::take_until1')
+def m_take_until1(I, c, args, fr): return p_take_until1(args[0], True)
+@model('nom::bytes::complete::take_until1', 'complete::take_until1')
+def m_ctake_until1(I, c, args, fr): return p_take_until1(args[0], False)
+@model('nom::character::streaming::satisfy', 'streaming::satisfy')
+def m_satisfy(I, c, args, fr): return p_satisfy(args[0], True)
+@model('nom::character::complete::satisfy', 'complete::satisfy')
+def m_csatisfy(I, c, args, fr): return p_satisfy(args[0], False)
+
+# zero-sized closures of these combinators: (number of trailing generic arguments that are parsers/functions, builder)
+_ZST2 = {
+    'flat_map': (lambda g: g[-3:-1], lambda ps: p_flat_map(*ps)),
+    'map_parser': (lambda g: g[-2:], lambda ps: p_map_parser(*ps)),
+    'consumed': (lambda g: g[-2:-1], lambda ps: p_consumed(*ps)),
+    'into': (lambda g: g[-1:], lambda ps: p_into(*ps)),
+    'many0': (lambda g: g[-1:], lambda ps: p_many(ps[0], 0, None, 'Many0')),
+    'many1': (lambda g: g[-1:], lambda ps: p_many(ps[0], 1, None, 'Many1')),
+    'many0_count': (lambda g: g[-1:], lambda ps: p_many(ps[0], 0, None, 'Many0Count', count_only=True)),
+    'many1_count': (lambda g: g[-1:], lambda ps: p_many(ps[0], 1, None, 'Many1Count', count_only=True)),
+    'many_till': (lambda g: g[-2:], lambda ps: p_many_till(*ps)),
+    'separated_list0': (lambda g: g[-2:], lambda ps: p_separated_list(ps[1], ps[0], False)),
+    'separated_list1': (lambda g: g[-2:], lambda ps: p_separated_list(ps[1], ps[0], True)),
+    'length_value': (lambda g: g[-2:], lambda ps: p_length_value(*ps)),
+    'satisfy': (lambda g: g[:1], None),
+}
+_old_value_of_type2 = value_of_type
+def value_of_type(I, ty, env):
+    t = strip_lifetimes(ty.strip())
+    if t.startswith('{closure@'):
+        inner = t[9:-1]
+        m = re.match(r'^((?:nom::)?[\w:]*?)(\w+)<', inner)
+        if m and (inner.startswith('nom::') or '<' in inner.split('::{closure')[0]) and m.group(2) in _ZST2:
+            comb = m.group(2)
+            name, gens = top_generics(inner)
+            gens = [g for g in gens if not g.startswith("'")]
+            pick, build = _ZST2[comb]
+            if comb == 'satisfy':
+                return p_satisfy(value_of_type(I, gens[0], env), 'complete' not in inner.split('<')[0])
+            return build([value_of_type(I, g, env) for g in pick(gens)])
+    return _old_value_of_type2(I, ty, env)
